@@ -191,7 +191,7 @@ class RandomChoice(
                 'The probabilities must be greater or equal zero!')
 
         p_sum = np.sum(p)
-        if abs(p_sum - 1.) > atol:
+        if not (abs(p_sum - 1.) <= atol):
             raise ValueError(
                 f'The sum of the probabilities ({p_sum}) must be 1!')
 
